@@ -1,6 +1,10 @@
 import RnaVerif.Driver.Proto
 import RnaVerif.Model.Elements
 import RnaVerif.Model.Levels
+import RnaVerif.Model.ElementsSpec
+import RnaVerif.Model.Convert
+import RnaVerif.Model.Pure
+import RnaVerif.Model.Optimum
 /-! driver ops for M1 (`ss.*`) -/
 namespace RnaVerif.Driver.SecStrOps
 open RnaVerif RnaVerif.SecStr RnaVerif.Proto
@@ -52,6 +56,17 @@ def handle (op : String) (a : List String) : Option String :=
       showExcept (fun l => ",".intercalate (l.map showStr)) (allDB es))
   | "ss.elements", [seq, ps, db] => (parseEntries seq ps).map (fun es =>
       "|".intercalate (elements es db.toList).describe)
+  | "ss.elements_spec", [seq, ps, stems, singles, hairpins, loops] => do
+      -- C07 spec predicate on element numbers: stems "a,b,c,d;…" singles "f,l,k;…" hairpins "f,l;…" loops "f,l|f,l;…"
+      let es ← parseEntries seq ps
+      let rows (s : String) (sep : Char) : Option (List (List Nat)) :=
+        if s == "-" || s == "" then some [] else (splitOn s sep).mapM parseNatList
+      let st ← rows stems ';'; let si ← rows singles ';'; let ha ← rows hairpins ';'
+      let lo ← (if loops == "-" || loops == "" then some [] else (splitOn loops ';').mapM (fun l => rows l '|'))
+      let q4 (l : List Nat) : Nat × Nat × Nat × Nat := (l.getD 0 0, l.getD 1 0, l.getD 2 0, l.getD 3 0)
+      let q3 (l : List Nat) : Nat × Nat × Nat := (l.getD 0 0, l.getD 1 0, l.getD 2 0)
+      let q2 (l : List Nat) : Nat × Nat := (l.getD 0 0, l.getD 1 0)
+      some (specAll es { stems := st.map q4, singles := si.map q3, hairpins := ha.map q2, loops := lo.map (·.map q2) })
   | "ss.nopk", [seq, ps, db] => (parseEntries seq ps).map (fun es =>
       showExcept showEntries (withoutPseudoknots es db.toList))
   | "ss.noiso", [seq, ps] => (parseEntries seq ps).map (fun es => showEntries (withoutIsolated es))
@@ -67,7 +82,7 @@ def handle (op : String) (a : List String) : Option String :=
       let regs := regions es
       let adj := adjOf conflictSpec regs
       let lens := regs.map (·.len)
-      some s!"proper={proper adj lvs} grundy={grundy adj lvs} score={scoreSpec lens lvs} opt={(optimum conflictSpec regs).getD 0}"
+      some s!"proper={proper adj lvs} grundy={grundy adj lvs} score={scoreSpec lens lvs} opt={optimumParts conflictSpec regs}"
   | "ss.milp", [seq, ps] => (parseEntries seq ps).map (fun es =>
       match milp Gen.conflictConvert (regions es) with
       | none => "none"
@@ -77,6 +92,31 @@ def handle (op : String) (a : List String) : Option String :=
         ",".intercalate (m.obj.map (fun (p, c) => s!"{so p}:{c}")) ++ " " ++
         ";".intercalate (m.oneLevel.map (fun l => ",".intercalate (l.map so))) ++ " " ++
         ";".intercalate (m.adjC.map (fun (p, q) => s!"{so p}+{so q}")))
+  | "ss.convert", [seq, ps, solver, outcome, ones] => do
+      -- C13: solver = "1"/"0"; outcome = raises|notopt|optimal ; ones = "i_o,i_o" (problem.variables() order)
+      let es ← parseEntries seq ps
+      let l ← (if ones == "-" || ones == "" then some [] else (splitOn ones ',').mapM (fun s =>
+        match splitOn s '_' with
+        | [a, b] => do let x ← a.toNat?; let y ← b.toNat?; some (x, y)
+        | _ => none))
+      let o ← (match outcome with
+        | "raises" => some Outcome.raises | "notopt" => some Outcome.notOptimal
+        | "optimal" => some (Outcome.optimal l) | _ => none)
+      some (showExcept showStr (convert es (solver == "1") o))
+  | "ss.history", [seq, ps, db, ops] => do
+      -- C12: run a call sequence on the object model; `db` = structure line a fresh object's solver gives
+      -- (or "err:<Name>"); ops = comma list of op names; answers joined by U+001F, text hex-encoded
+      let es ← parseEntries seq ps
+      let opt : List Entry → Except Err (List Char) := fun _ =>
+        if db.startsWith "err:" then .error .other else .ok db.toList
+      let ol ← (if ops == "-" then some [] else (splitOn ops ',').mapM (fun s => match s with
+        | "str" => some Op.str | "pairs" => some Op.pairs | "dot_bracket" => some Op.dotBracket
+        | "fcfs" => some Op.fcfs | "all_dot_brackets" => some Op.allDB | "elements" => some Op.elements
+        | "without_isolated" => some Op.withoutIsolated | "without_pseudoknots" => some Op.withoutPseudoknots
+        | _ => none))
+      some (";".intercalate ((run opt { entries := es } ol).map (fun a => match a with
+        | .text t => "ok:" ++ toHex t
+        | .err e => "err:" ++ e.toString)))
   | "ss.readback", [n, ones] => do
       let n ← n.toNat?
       let l ← (if ones == "-" || ones == "" then some [] else (splitOn ones ',').mapM (fun s =>
